@@ -101,7 +101,7 @@ def _case(draw, tier):
     forms_main = {"eq": ["eq", "eq_r"], "le": ["le", "le_r"], "ge": ["ge", "ge_r"], "in": ["in"],
                   "getitem": ["item_eq", "item_in"]}[main]
     other_forms = [f for f in KINDS if KINDS[f] != main and KINDS[f] != "getitem"]
-    n = draw(st.integers(1, 8))
+    n = draw(st.sampled_from([1, 2, 3, 4, 5, 6, 8]))
     mixed = draw(st.integers(0, 3)) == 0
     for j in range(n):
         if mixed and j > 0 and draw(st.integers(0, 2)) == 0:
